@@ -14,7 +14,10 @@ static void regs_make_wf(RegisterState *r)
                  &r->stp16, &r->cmd, &r->epi, &r->epj, &r->ipv, &r->imv, &r->nimc, &r->ie, &r->iu.e[0], &r->iu.e[1]};
     for (unsigned i = 0; i < sizeof f1 / sizeof f1[0]; i++) *f1[i] &= 1;
     r->hwm &= 3; r->ps.e[0] &= 3; r->ps.e[1] &= 3; r->pc &= 0x3FFFF; r->prpage &= 15; r->pcmhi &= 3; r->page &= 0xFF; r->bcn %= 5; r->lp = r->bcn != 0; NORM_BOOL(r->rep);
-    for (int i = 0; i < 4; i++) { r->bkrep_stack.e[i].start &= 0x3FFFF; r->bkrep_stack.e[i].end &= 0x3FFFF; }
+    for (int i = 0; i < 4; i++) {   /* also clears the struct's padding bytes: outputs are compared as raw bytes and the bridge converts field by field */
+        u32 s_ = r->bkrep_stack.e[i].start & 0x3FFFF, e_ = r->bkrep_stack.e[i].end & 0x3FFFF; u16 l_ = r->bkrep_stack.e[i].lc;
+        memset(&r->bkrep_stack.e[i], 0, sizeof r->bkrep_stack.e[i]); r->bkrep_stack.e[i].start = s_; r->bkrep_stack.e[i].end = e_; r->bkrep_stack.e[i].lc = l_;
+    }
     r->stepi &= 0x7F; r->stepj &= 0x7F; r->modi &= 0x1FF; r->modj &= 0x1FF; r->stepib &= 0x7F; r->stepjb &= 0x7F; r->modib &= 0x1FF; r->modjb &= 0x1FF;
     for (int i = 0; i < 8; i++) { r->m.e[i] &= 1; r->br.e[i] &= 1; }
     for (int i = 0; i < 4; i++) { r->arstep.e[i] &= 7; r->arpstepi.e[i] &= 7; r->arpstepj.e[i] &= 7; r->aroffset.e[i] &= 3; r->arpoffseti.e[i] &= 3; r->arpoffsetj.e[i] &= 3; r->arrn.e[i] &= 7; r->arprni.e[i] &= 3; r->arprnj.e[i] &= 3; }
